@@ -101,9 +101,9 @@ Definition node_capacity_g (info : node_info) (base maxshare : Z) (req : wreq)
 End WithSort.
 
 Definition calculate_deploy := calculate_deploy_g sort_exact.
-Definition calculate_deploy_chk := calculate_deploy_g sort_checked.
+Definition calculate_deploy_chk := calculate_deploy_g sort_pdq.
 Definition node_capacity := node_capacity_g sort_exact.
-Definition node_capacity_chk := node_capacity_g sort_checked.
+Definition node_capacity_chk := node_capacity_g sort_pdq.
 
 (* SetNodeResourceUsage(nil, nil, workloads, delta=true, incr=true): calculateNodeResource
    adds {CPU: CPURequest, CPUMap, NUMAMemory, Memory: MemoryRequest} of every workload *)
@@ -158,7 +158,7 @@ Definition calculate_realloc_g (info : node_info) (base maxshare : Z) (origin : 
 End WithSort.
 
 Definition calculate_realloc := calculate_realloc_g sort_exact.
-Definition calculate_realloc_chk := calculate_realloc_g sort_checked.
+Definition calculate_realloc_chk := calculate_realloc_g sort_pdq.
 
 (* fuel: the origin's pieces come back into the pool *)
 Definition realloc_info (info : node_info) (origin : wres) : node_info :=
